@@ -94,6 +94,9 @@ class Reporter:
         total = len(self.obligations)
         ok = sum(1 for o in self.obligations if o[1])
         print("   obligations %d, discharged %d" % (total, ok))
+        if os.environ.get("AVRA_VERBOSE"):
+            for o in self.obligations:
+                print("     %s %s :: %s" % ("ok " if o[1] else "BAD", o[0], str(o[2])[:260]))
         for v in self.violations:
             kk = (self.pid, v["key"])
             if kk in known:
